@@ -111,7 +111,16 @@ async fn one_case(log: &Log, r: &mut Rng, c: &Value, socks: &str, have6: bool) {
     }
     drop(s);
     tokio::time::sleep(Duration::from_millis(3)).await;
-    let dials: Vec<(Vec<u8>, u16)> = DIALS.lock().unwrap()[dials0..].iter().filter(|d| myports.contains(&d.1)).cloned().collect();
+    // a dial belongs to this case if it goes to one of ITS listeners / its refusing address: address family and
+    // port together (an IPv6 listener of one case and an IPv4 listener of another may carry the same port number)
+    let lo4 = vec![127u8, 0, 0, 1];
+    let lo4m = std::net::Ipv4Addr::LOCALHOST.to_ipv6_mapped().octets().to_vec();
+    let lo6 = std::net::Ipv6Addr::LOCALHOST.octets().to_vec();
+    let p6 = accept6.as_ref().map(|t| t.addr.port()).unwrap_or(0);
+    // (the refusing port is unique within the process, whatever the address family)
+    let mine = |d: &(Vec<u8>, u16)| d.1 == refuse.port() || ((d.0 == lo4 || d.0 == lo4m) && d.1 == accept.addr.port()) || (d.0 == lo6 && p6 != 0 && d.1 == p6)
+        || (d.0 != lo4 && d.0 != lo4m && d.0 != lo6 && myports.contains(&d.1));
+    let dials: Vec<(Vec<u8>, u16)> = DIALS.lock().unwrap()[dials0..].iter().filter(|d| mine(d)).cloned().collect();
     let dialled = !dials.is_empty();
     let dialok = match (&b.dest, dials.first()) {
         (Some((ip, port)), Some((dip, dport))) => dials.len() == 1 && dport == port && (ip.is_empty() || dip == ip),
